@@ -2,6 +2,10 @@ package main
 
 import (
 	"fmt"
+	"math"
+
+	"github.com/jrhy/s3db"
+	"google.golang.org/protobuf/proto"
 
 	"verif/harness/sqlh"
 )
@@ -9,19 +13,16 @@ import (
 func init() { cmds["scratch"] = scratch }
 
 func scratch(args []string) int {
+	cv := s3db.ToColumnValue(math.Copysign(0, -1))
+	c2 := proto.Clone(cv)
+	fmt.Printf("clone: %016x -> %v\n", math.Float64bits(cv.Value.Real), c2)
 	db := sqlh.Open()
-	b, st := sqlh.Bucket()
-	fmt.Println(sqlh.XS(db, sqlh.CreateSQL(sqlh.TableOpts{Name: "t1", Bucket: b, Prefix: "p", Columns: "a primary key, b", EntriesPerNode: 4})))
-	for i := 0; i < 20; i++ {
-		fmt.Print(sqlh.XS(db, "insert into t1 values(?,?)", i, fmt.Sprint("v", i)), " ")
-	}
-	fmt.Println()
-	fmt.Println(sqlh.QS(db, "select count(*) from t1"))
-	fmt.Println(sqlh.QS(db, "select a from t1 where a<=50 order by a desc limit 3"))
-	for _, r := range st.Log()[:10] {
-		fmt.Println(r)
-	}
-	fmt.Println(len(st.Keys("")))
-	fmt.Println(sqlh.XS(db, `create virtual table t2 using s3db (entries_per_node, columns='a primary key')`))
+	bk, _ := sqlh.Bucket()
+	fmt.Println(sqlh.XS(db, sqlh.CreateSQL(sqlh.TableOpts{Name: "t1", Bucket: bk, Prefix: "p", Columns: "k primary key, a, b"})))
+	sqlh.SetWriteTime(db, 1)
+	fmt.Println(sqlh.XS(db, "insert into t1 values(?,?,?)", 1, math.Copysign(0, -1), 1))
+	sqlh.SetWriteTime(db, 2)
+	fmt.Println(sqlh.XS(db, "update t1 set b=2 where k=1"))
+	fmt.Println("after update of b at a later time:", sqlh.QS(db, "select k,a,b from t1"))
 	return 0
 }
